@@ -8,7 +8,7 @@ import lightworks as lw
 from lightworks import emulator as emu
 
 from .. import kernel, ref_fock
-from ..circuit_ops import Env, build, emulator_family
+from ..circuit_ops import Env, build, emulator_family, herald_layout_family
 
 THR = 1e-9      # documented per-state truncation (settings.sampler_probability_threshold)
 EPS = 1e-11     # float rounding allowance
@@ -92,14 +92,24 @@ def run(tier, seed):
         return acc
 
     acc = kernel.pmap(shard_fn, kernel.interleave(fam, kernel.NPROC * 3))
+    lay = herald_layout_family(env, tier)
+
+    def shard_lay(recipes):
+        a = kernel.Acc()
+        for rc in recipes:
+            check_circuit(rc, env, 2, a)
+        return a
+
+    acc.merge(kernel.pmap(shard_lay, kernel.interleave(lay, kernel.NPROC * 3)))
     meta = {
-        "rule": "every circuit recipe of the emulator family x every Fock input on the visible modes up to the photon "
+        "rule": "every circuit recipe of the emulator family (and every herald layout of <= 2 heralds on 3 modes, 4 in thorough: ordered "
+                "input modes x ordered output modes x photon numbers {0,1,2}; every mode heralded on 2 and 3 modes) x every Fock input on the visible modes up to the photon "
                 "bound (vacuum, bunched) x backend in {permanent, slos}; each distribution compared entry by entry with "
                 "|amp|^2 over the complete Fock basis of all modes incl. loss modes, marginalised (tolerance = number of "
                 "folded full states x 1e-9 documented truncation), plus non-negativity, photon bound, normalisation and "
                 "backend agreement. distinct_nontrivial = (circuit,input) with >=1 photon and support > 1.",
         "exhaustive": True,
-        "bounds": {"circuits": len(fam), "max_visible_photons": maxph},
+        "bounds": {"circuits": len(fam), "herald_layout_circuits": len(lay), "max_visible_photons": maxph},
         "assumptions": ["ideal source only (imperfect sources are C06)"],
     }
     return acc, meta
